@@ -194,6 +194,15 @@ def work(key):
         if first_violation(results):
             res.candidate("relation", f"defining relation {name} fails", {"gate": name, "values": {}, "clause": "relation:" + name}, sub="relation")
         res.sample({"relation": name})
+    elif kind == "alias":
+        res.d["ground_instances"] += 1
+        res.d["instances"] -= 1
+        res.ob(1)
+        bad = _ground_alias()
+        if bad:
+            res.candidate("matrix-independent-of-history", f"after a caller overwrote matrix objects obtained earlier, these gates report a different matrix: {bad[:6]}", {"gate": "all", "values": {}, "clause": "matrix-independent-of-history"}, sub="alias")
+        else:
+            res.ob(0, 1, "ground-structure")
     elif kind == "ground":
         # computable without the sympy/numpy shim, at concrete Python-float parameters
         res.d["ground_instances"] += 1
@@ -261,6 +270,40 @@ def _ground_numeric_path(name):
     return bad
 
 
+def _ground_alias():
+    """The matrix a gate reports must not depend on what a caller did to a matrix object obtained earlier: take every
+    gate's matrix (concrete and symbolic parameters), overwrite the returned objects in place where they are mutable, ask
+    again (same gate objects and freshly built ones) and compare with copies taken before. Ground scenario."""
+    install_numpy_sympy_shim()
+    table = gate_table()
+    first, snaps, gates = {}, {}, {}
+    for name in sorted(table):
+        kind, obj, npar = table[name]
+        for tag, params in (("num", _ground_vals(npar)), ("sym", syms("th", npar))):
+            if kind == "const" and tag == "sym":
+                continue
+            g = obj if kind == "const" else obj(*params)
+            M = g.matrix
+            gates[(name, tag)] = (g, kind, obj, params)
+            first[(name, tag)] = M
+            snaps[(name, tag)] = sympy.ImmutableMatrix(M)
+    for key, M in first.items():
+        try:
+            for i in range(M.shape[0]):
+                for j in range(M.shape[1]):
+                    M[i, j] = sympy.Symbol("overwritten") + i - j
+        except TypeError:
+            pass  # immutable result: nothing a caller could have changed
+    bad = []
+    for key, (g, kind, obj, params) in gates.items():
+        again = [g.matrix] + ([obj(*params).matrix] if kind != "const" else [])
+        for M in again:
+            if sympy.ImmutableMatrix(M) != snaps[key]:
+                bad.append(f"{key[0]}[{key[1]}]")
+                break
+    return bad
+
+
 def _ground_computable(name):
     import subprocess, sys, json, os
     from ..core import VERIF, REPO
@@ -301,6 +344,7 @@ def run(ctx):
     keys += [f"group:{n}" for n in GROUP_GATES if n in table]
     keys += [f"rel:{r}" for r in RELATIONS]
     keys += [f"ground:{n}" for n in sorted(table)]
+    keys += ["alias:all"]
     if getattr(ctx, "only", None):
         keys = [k for k in keys if ctx.only in k]
     for k, out in pmap(work, keys):
@@ -320,6 +364,9 @@ def replay(data):
     inp = data["inputs"]
     name, clause, vals = inp["gate"], inp["clause"], inp.get("values") or {}
     table = gate_table()
+    if clause == "matrix-independent-of-history":
+        bad = _ground_alias()
+        return bool(bad), f"gates whose matrix changed after earlier results were overwritten in place: {bad[:8]}"
 
     def npm(g):
         return np.array(g.matrix, dtype=complex)
